@@ -126,7 +126,8 @@ def frameLoop (quorumOn : Nat â†’ Bool) (maxFrameToCheck : Nat) : Nat â†’ Nat â†
 
 /-- Orderer.calcFrameIdx (second result) -/
 def calcFrameIdx (quorumOn : Nat â†’ Bool) (selfParentFrame claimed : Nat) (checkOnly : Bool) : Nat :=
-  let maxFrameToCheck := if checkOnly then Gen.Orderer.checkOnlyMaxFrame claimed else Gen.Orderer.maxFrameToCheck selfParentFrame
+  let cap := Gen.Orderer.maxFrameToCheck selfParentFrame
+  let maxFrameToCheck := if Gen.Orderer.useClaimedBound claimed cap selfParentFrame checkOnly then Gen.Orderer.checkOnlyMaxFrame claimed else cap
   let f := frameLoop quorumOn maxFrameToCheck (maxFrameToCheck - selfParentFrame) selfParentFrame
   if Gen.Orderer.frameIsZero f then Gen.Orderer.frameIfZero else f
 
